@@ -1,6 +1,8 @@
 import MidnightZK.Model.Common
 import MidnightZK.Model.C20.Ipa
 import MidnightZK.Model.C20.Group
+import MidnightZK.Model.C20.Gadget
+import MidnightZK.Model.C01.Parse
 /-! Line-protocol handler of property C20. -/
 namespace MidnightZK.C20.Driver
 open MidnightZK MidnightZK.C20
@@ -27,8 +29,28 @@ def fmtFr (l : List Fr) : String := fmtHexList (l.map (·.val))
 
 def isPow2 (n : Nat) : Bool := n ≠ 0 ∧ 2 ^ n.log2 = n
 
+def tok (e : MidnightZK.C01.Ev) : String :=
+  let t := match e.ty with | .G => "G" | .F => "F"
+  match e.kind with
+  | .squeeze => "S"
+  | .absorb => "C" ++ t
+  | .elem => "E" ++ t
+
+/-- `gadget-sched` / `gadget-prooflen`: shape of the inner constraint system, number of committed
+instance columns, lengths of the plain instance columns. -/
+def gadgetAnswer (op : String) (rest : List String) : String :=
+  open MidnightZK.C01.Parse in
+  match parseShape? rest, (kv rest "nc").bind parseNat?, (kv rest "lens").bind parseNatList? with
+  | some sh, some nc, some lens =>
+    if !gadgetSupported sh then "panic"
+    else if op = "gadget-sched" then " ".intercalate ((gadgetSchedule sh nc lens).map tok)
+    else toString (gadgetProofLen sh nc lens)
+  | _, _, _ => "bad-op"
+
 def answer (line : String) : String :=
   match words line with
+  | "gadget-sched" :: rest => gadgetAnswer "gadget-sched" rest
+  | "gadget-prooflen" :: rest => gadgetAnswer "gadget-prooflen" rest
   | ["ipa-sched", side, len] =>
     match len.toNat? with
     | some len =>
